@@ -26,7 +26,7 @@ EXPLANATION = (
     'thread 0 only); plus a frozen set of static-storage variables written after start-up. Every field of the listed classes must '
     'have a row (new fields fail until classified).'
     ' The options hand-over (waitOptionsSet returning) is decided by the completion-flag typestate: optionsSetFinished is set only under the mutex with the pending queue and every swapped-out batch known empty.'
-    ' Added later; (6) unlocked walks of Communicator::children in poll are followed by a lock acquisition; (7) option reads on the go paths follow waitOptionsSet.')
+    ' Added later; (6) unlocked walks of Communicator::children in poll are followed by a lock acquisition; (7) option reads on the go paths follow waitOptionsSet; (8) the start-up seeding of the lazily filled maxSubDTM map covers every pawn split up to colour mirroring, so search threads only look it up.')
 UNDECIDED = ('absence of races in the C++ memory-model sense for the whole engine (needs dynamic happens-before tracking); rows marked '
              'HB-protocol rely on message-protocol ordering that is listed, not proved; maxSubDTM/maxDTM lazy maps are not judged '
              '(6/7-men tablebase files needed to reach the insertion).')
@@ -34,7 +34,7 @@ ASSUMPTIONS = [
     'HB-protocol: helper threads search only between INIT/START_SEARCH and their STOP_ACK; the engine thread changes table geometry and options only outside that window',
     'HB-protocol: the option listeners fired from the EngineControl constructor run before the first search is handed over',
     'std::thread construction/join, std::mutex and std::condition_variable provide the ordering the standard specifies',
-    'maxSubDTM / maxDTM (tbprobe.cpp): pre-computed at start-up for <= 5 non-king men; search-time insertion needs 6/7-men Syzygy/Gaviota files (not judged)',
+    'maxSubDTM / maxDTM (tbprobe.cpp): pre-computed at start-up for <= 5 non-king men (coverage of the seeding loop checked in C09.8; that the recursion of getMaxSubMate reaches every sub-material from the seeds is read, not proved)',
 ]
 
 # discipline table ----------------------------------------------------------------------------
@@ -110,7 +110,7 @@ ATOMIC_PREFIXES = ('std::atomic<', 'RelaxedShared<')
 KNOWN_STATICS = {
     'TranspositionTable::updateTB::<static S64>': 'ENGINE only (updateTB is called by thread 0 before helpers start)',
     'Book::numBookMoves': 'ENGINE only (book probe in doSearch)', 'Book::bookMap': 'ENGINE only', 'Book::rndGen': 'ENGINE only',
-    'maxSubDTM': 'suppressed with reason (see assumptions)', 'maxDTM': 'suppressed with reason (see assumptions)',
+    'maxSubDTM': 'filled at start-up (C09.8); later calls only look up (see assumptions)', 'maxDTM': 'suppressed with reason (see assumptions)',
     'maxDTZ': 'initialisation path only (TBProbe::initialize, engine idle)',
     'TBProbe::initialize::<static bool>': 'option listener, engine idle', 'TBProbe::gtbInitialize::<static bool>': 'option listener, engine idle',
     'TBProbeData::maxPieces': 'option listener, engine idle', 'currentGtbCacheMB': 'option listener, engine idle',
@@ -179,6 +179,7 @@ def run(fb, rep, tier):
     from . import C10
     C10.completion_flag(fb, rep, 'C09.4')
     c5_children_walk(fb, rep)
+    c8_lazy_map_seeded(fb, rep)
     # .7 option values (plain bool / int members of the parameter objects) are written by the engine thread and read by the
     # protocol thread when it handles `go`: the only happens-before edge is waitOptionsSet() inside stopThread(), which must
     # therefore precede every option-reading call on the go paths (shared with C06.4)
@@ -596,3 +597,139 @@ def c5_children_walk(fb, rep):
     late = [(b, i, e) for b, i, e in acc if f.path_avoiding((b, i), R.at_exit, is_lock) is not None]
     rep.ob(clause, 'K2 must-pass-through', 'Communicator::poll: every unlocked access to children is followed by an acquisition of the mutex before poll returns', not late,
            R.site(f, late[0][2]) if late else f.where, '%d access(es), %d with a lock-free path to the exit' % (len(acc), len(late)), f.sname)
+
+
+# ----------------------------------------------------------------------------- .8
+
+def c8_lazy_map_seeded(fb, rep):
+    """Premise of the suppressed maxSubDTM row made checkable.  The map is filled lazily by getMaxSubMate() with no lock; the
+    only reason search threads never insert is that initWDLBounds() (engine idle) pre-computes it from the all-pawn
+    material of nNonKings men, from which every other material is reached by captures and promotions.  The map is keyed
+    on min(id, mirror(id)), so the seeds must cover every pawn split {w, N-w} of the N non-king men up to colour mirroring.
+    The loop's own init / bound / step and the two count expressions are evaluated; nothing else is assumed."""
+    clause = 'C09.8'
+    f = fb.find1('TBProbe::initWDLBounds')
+    if rep.need(clause, f, 'TBProbe::initWDLBounds') is None:
+        return
+    decls = {v['id']: v for _, _, e in f.events() if e.get('k') == 'decl' for v in e.get('vars', [])}
+    names = {v['id']: v.get('n') for v in decls.values()}
+
+    class Unk(Exception):
+        pass
+
+    def strip(t):
+        while isinstance(t, dict) and t.get('k') in ('cast', 'paren') and t.get('e') is not None:
+            t = t['e']
+        return t
+
+    def ev(t, env, depth=0):
+        t = strip(t)
+        if not isinstance(t, dict) or depth > 8:
+            raise Unk(show(t, 60))
+        if 'cv' in t:
+            return t['cv']
+        if t.get('k') == 'var':
+            if t.get('id') in env:
+                return env[t['id']]
+            d = decls.get(t.get('id'))
+            if d is not None and d.get('init') is not None:
+                return ev(d['init'], env, depth + 1)
+            raise Unk(show(t, 60))
+        if t.get('k') == 'bin':
+            a, b = ev(t['l'], env, depth + 1), ev(t['r'], env, depth + 1)
+            op = t.get('op')
+            if op in ('/', '%') and b == 0:
+                raise Unk('division by zero')
+            fn = {'+': lambda: a + b, '-': lambda: a - b, '*': lambda: a * b, '/': lambda: int(a / b), '%': lambda: a - b * int(a / b),
+                  '<': lambda: a < b, '<=': lambda: a <= b, '>': lambda: a > b, '>=': lambda: a >= b, '!=': lambda: a != b, '==': lambda: a == b,
+                  '&&': lambda: bool(a and b), '||': lambda: bool(a or b), '<<': lambda: a << b, '>>': lambda: a >> b}.get(op)
+            if fn is None:
+                raise Unk(show(t, 60))
+            return fn()
+        if t.get('k') == 'un' and t.get('op') in ('-', '!'):
+            v = ev(t['e'], env, depth + 1)
+            return -v if t['op'] == '-' else (not v)
+        raise Unk(show(t, 60))
+
+    hdr = [(bid, blk) for bid, blk in f.blocks.items() if (blk.get('term') or {}).get('c') in ('ForStmt', 'WhileStmt') and bid not in f.dead]
+    loops = {h: body for h, body in f.natural_loops().items()} if hasattr(f, 'natural_loops') else {}
+    seeds = []      # (loop header, block, index, call event)
+    for b, i, e in f.events():
+        for n in walk(e):
+            if isinstance(n, dict) and n.get('k') == 'call' and cname(n).endswith('::getMaxSubMate') and len(n.get('args', [])) == 2:
+                seeds.append((b, i, n))
+    if rep.floor(clause, 'seeding calls of getMaxSubMate in initWDLBounds', len({(b, i) for b, i, _ in seeds}), 1) is False or not seeds:
+        return
+    b0 = seeds[0][0]
+    inside = [h for h, _ in hdr if b0 in loops.get(h, ())]
+    if len(inside) != 1:
+        rep.broken(clause, 'the seeding call is not inside exactly one counted loop (found %d)' % len(inside))
+        return
+    hb = inside[0]
+    cond = f.blocks[hb]['term'].get('cond')
+    body = loops[hb]
+    # loop variables: the locals stepped inside the loop
+    steps = {}
+    for b, i, e in f.events():
+        if b not in body:
+            continue
+        if e.get('k') == 'incdec' and isinstance(strip(e.get('e')), dict) and strip(e['e']).get('k') == 'var':
+            steps.setdefault(strip(e['e'])['id'], []).append(1 if e.get('op') == '++' else -1)
+        elif e.get('k') == 'asg' and isinstance(strip(e.get('l')), dict) and strip(e['l']).get('k') == 'var' and e.get('op') in ('+=', '-='):
+            c = strip(e.get('r'))
+            steps.setdefault(e['l']['id'], []).append((c.get('cv') if isinstance(c, dict) else None) if e['op'] == '+=' else (-c['cv'] if isinstance(c, dict) and 'cv' in c else None))
+        elif e.get('k') == 'asg' and isinstance(strip(e.get('l')), dict) and strip(e['l']).get('k') == 'var' and e['l'].get('id') in decls:
+            steps.setdefault(e['l']['id'], []).append(None)
+    if len(steps) != 1 or any(len(v) != 1 or v[0] in (None, 0) for v in steps.values()):
+        rep.broken(clause, 'the seeding loop does not step exactly one local by a constant: %s' % {names.get(k): v for k, v in steps.items()})
+        return
+    ivar, (step,) = list(steps.items())[0]
+    # element writes pieces[X] = expr inside the loop, keyed by the piece-type constant
+    writes = {}
+    for b, i, e in f.events():
+        if b in body and e.get('k') == 'asg' and e.get('op') == '=':
+            l = strip(e.get('l'))
+            if isinstance(l, dict) and l.get('k') in ('call', 'idx', 'sub'):
+                idx = (l.get('args') or [None, None])[-1] if l.get('k') == 'call' else (l.get('i') or l.get('r'))
+                try:
+                    writes.setdefault(ev(idx, {}), []).append(e.get('r'))
+                except Unk:
+                    writes.setdefault(None, []).append(e.get('r'))
+    WP, BP = fb.const('Piece::WPAWN'), fb.const('Piece::BPAWN')
+    if WP is None or BP is None:
+        rep.broken(clause, 'Piece::WPAWN / Piece::BPAWN constants not found')
+        return
+    if None in writes or set(writes) - {WP, BP} or any(len(v) != 1 for v in writes.values()) or set(writes) != {WP, BP}:
+        rep.broken(clause, 'the seeding loop does not write exactly the two pawn counts once each (slots written: %s)' % sorted(writes, key=str))
+        return
+    d = decls.get(ivar)
+    if d is None or d.get('init') is None:
+        rep.broken(clause, 'the loop variable has no initialiser')
+        return
+    where = '%s:%s' % (f.d['file'], f.blocks[hb]['term'].get('ln') or seeds[0][2].get('ln'))
+    try:
+        x = ev(d['init'], {})
+        pairs = []
+        for _ in range(64):
+            if not ev(cond, {ivar: x}):
+                break
+            pairs.append((ev(writes[WP][0], {ivar: x}), ev(writes[BP][0], {ivar: x})))
+            x += step
+        else:
+            raise Unk('loop does not terminate within 64 iterations')
+    except Unk as u:
+        rep.broken(clause, 'seeding loop not evaluable: %s' % u)
+        return
+    rep.floor(clause, 'seeding iterations evaluated', len(pairs), 1)
+    totals = {w + b for w, b in pairs}
+    n = max(totals) if totals else 0
+    neg = [p_ for p_ in pairs if p_[0] < 0 or p_[1] < 0]
+    rep.ob(clause, 'K12 finite evaluation', 'initWDLBounds: every seed is a non-negative pawn split of one non-king count', len(totals) == 1 and not neg, where,
+           'splits %s' % pairs, f.sname)
+    have = set(pairs) | {(b, w) for w, b in pairs}
+    missing = [(w, n - w) for w in range(n + 1) if (w, n - w) not in have]
+    rep.ob(clause, 'K12 finite evaluation', 'initWDLBounds: the seeds cover every white/black pawn split of the non-king men up to colour mirroring, so search threads only look the lazy map up',
+           not missing, where, 'N=%d, seeded %s%s' % (n, pairs, (', missing ' + str(missing)) if missing else ''), f.sname)
+    # the per-position entry point may only fall through to the inserting overload for material the seeds cover:
+    # the count it is reached with is bounded by the probe's own piece limit, checked where the probes test TBLargest (C13)
+    rep.ob(clause, 'K12 finite evaluation', 'initWDLBounds: the seeded non-king count covers the largest supported tablebase (7 men)', n >= 5, where, 'N=%d' % n, f.sname)
